@@ -14,9 +14,12 @@ K4 completion: kekulize() returns success only with the delocalised subgraph emp
    emptiness of that same field
 K5 entry into the aromatic system: the parser gives a bond the order 1.5 only on paths where no bond symbol was written
    for it, on either ring digit ("implicit aromatic bonds between lower-case atoms" -- an explicit '-' must stay single)
+K6 pruning decision table: for the standard aromatic atom kinds named in the statement (c, n, o, s, p, [nH], substituted
+   n, [n+], and their bracketed twins) the pruning predicate, abstractly interpreted on exact rationals, keeps exactly
+   those that need a pi bond
 Not decided (value level, see DESIGN.md §4 C05): that the search finds a perfect matching whenever one exists
-(the property text documents a genuine defect there: no blossom contraction), that pruning keeps exactly the
-atoms that need a pi bond, and independence from atom order.
+(the property text documents a genuine defect there: no blossom contraction), pruning outside the standard kinds
+(radicals, unusual charges), and independence from atom order.
 """
 import ast
 
@@ -470,3 +473,83 @@ def run(ctx, rep):
     # K5: which bonds enter the aromatic system at all: order 1.5 only where no bond symbol was written (shared with C03/R6)
     from rules.C03 import check_explicit_bond_symbols
     check_explicit_bond_symbols(ctx, rep, "K5")
+    check_prune_table(ctx, rep, ds_field)
+
+
+# ----------------------------------------------------------------------------- K6 pruning decision table
+# (element, formal charge, explicit H count or None for an organic-subset atom, aromatic bonds, order sum of the other
+#  bonds) -> True when the atom must be left out of the matching (it gets no double bond inside the aromatic system)
+PRUNE_SPEC = [
+    (("C", 0, None, 2, 0), False, "c  (aromatic CH)"),
+    (("C", 0, None, 2, 1), False, "c  with a substituent"),
+    (("C", 0, None, 3, 0), False, "c  ring-fusion atom"),
+    (("C", 0, None, 2, 2), True, "c  with an exocyclic double bond (c=O)"),
+    (("C", 0, 1, 2, 0), False, "[cH]"),
+    (("N", 0, None, 2, 0), False, "n  (pyridine type)"),
+    (("N", 0, 0, 2, 0), False, "[n]  (pyridine type, bracketed)"),
+    (("N", 0, 1, 2, 0), True, "[nH]  (pyrrole type)"),
+    (("N", 0, None, 2, 1), True, "n  with a substituent (N-substituted pyrrole type)"),
+    (("N", 1, 0, 2, 1), False, "[n+] with a substituent (pyridinium)"),
+    (("N", 1, 1, 2, 0), False, "[nH+]"),
+    (("O", 0, None, 2, 0), True, "o  (furan type)"),
+    (("S", 0, None, 2, 0), True, "s  (thiophene type)"),
+    (("P", 0, None, 2, 0), False, "p  (phosphinine type)"),
+]
+
+
+def check_prune_table(ctx, rep, ds_field):
+    """K6: for the standard aromatic atom kinds of the statement, the pruning predicate (abstractly interpreted on a graph
+    state that contains just that atom) decides 'needs a pi bond' / 'needs none' as the aromaticity model says.  The
+    arithmetic (valence tables, charges, hydrogens, radical electrons) is evaluated by the engine on exact rationals; no
+    molecule is parsed or run."""
+    from fractions import Fraction
+    from sa.sym import Engine, Hooks, Num, Con, Tup, Obj
+    from sa.lin import Lin
+    from rules.C01 import count_field
+    cls = ctx.db.classes[MG]
+    P = None
+    K = cls.methods["kekulize"]
+    # the pruning predicate: the method of the class that kekulize() (or a helper) uses as a filter over the DS nodes and
+    # that reads the valence table
+    for q in ctx.cg.region(K):
+        g = ctx.db.funcs[q]
+        if g.cls is cls and g is not K and any(isinstance(n, ast.Name) and n.id == "AROMATIC_VALENCES" for n in own_nodes(g.node)) \
+                and len(g.posparams) == 2:
+            P = g
+    if P is None:
+        rep.note("pruning predicate not identified: decision table not evaluated")
+        return
+    cf = count_field(ctx)
+    ga = cls.methods.get("get_atom")
+    atoms_field = None
+    for n in own_nodes(ga.node):
+        if isinstance(n, ast.Return) and isinstance(n.value, ast.Subscript) and isinstance(n.value.value, ast.Attribute):
+            atoms_field = n.value.value.attr
+    if atoms_field is None:
+        raise AnalysisError("atom list field of MolecularGraph not found")
+    n_dec = 0
+    for (el, ch, h, n_arom, other), want, label in PRUNE_SPEC:
+        atom = Obj(("atom", label), "selfies.mol_graph.Atom", {"element": Con(el), "charge": Num(Lin.const(ch)),
+                                                              "h_count": Con(None) if h is None else Num(Lin.const(h)),
+                                                              "is_aromatic": Con(True), "index": Num(Lin.const(0))})
+        count = Fraction(3, 2) * n_arom + other
+        me = Obj(("self", P.qual), cls.qual, {ds_field: Tup([Tup([Num(Lin.const(7 + i)) for i in range(n_arom)], "list")], "list"),
+                                             atoms_field: Tup([atom], "list"), cf: Tup([Num(Lin.const(count))], "list")})
+        eng = Engine(ctx, Hooks(), inline_methods={m.qual for m in cls.methods.values() if m.name.startswith("_") and not m.name.startswith("__")})
+        fr = eng.run_function(P, {P.posparams[0]: me, P.posparams[1]: Num(Lin.const(0))})
+        vals = set()
+        for s_, v in fr.returns:
+            vals.add(v.value if isinstance(v, Con) and isinstance(v.value, bool) else None)
+        if fr.raises or None in vals or len(vals) != 1:
+            rep.note("pruning decision for %s is not a constant in the abstract run (%s): not decided" % (label, sorted(map(str, vals))))
+            continue
+        n_dec += 1
+        got = vals.pop()
+        rep.ob("K6", got is want, P.node, P, construct="pruning decision for %s" % label,
+               how="%s" % ("left out of the matching (no double bond)" if want else "kept for the matching (needs one double bond)"),
+               witness=None if got is want else "%s is %s, but this atom kind %s" % (label, "pruned" if got else "kept for the matching",
+                                                                                  "needs a double bond inside the ring" if not want else "must not get one"),
+               nontrivial=True, key="prune/%s" % label.split("  ")[0].strip())
+    if n_dec < 10:
+        raise AnalysisError("pruning decision table: only %d of %d standard atom kinds could be decided" % (n_dec, len(PRUNE_SPEC)))
+    rep.floor("K6", 10)
